@@ -79,9 +79,10 @@ pub fn run(prop: &'static str, tier: &str) -> i32 {
         plan.push((p, if quick && slow { 3 } else { 5 }, 0, None));
     }
     if quick {
-        plan.push((Proto::V4L, 9, 0, Some(5)));
+        plan.push((Proto::V4L, 10, 0, Some(5)));
     } else {
-        for ci in 0..clks.len() {
+        plan.push((Proto::V4L, 10, 0, None));
+        for ci in 1..clks.len() {
             plan.push((Proto::V4L, 9, ci, None));
         }
         plan.push((Proto::V4P, 9, 0, None));
@@ -116,7 +117,7 @@ pub fn run(prop: &'static str, tier: &str) -> i32 {
 
     // ---- engine A: every call sequence up to a depth, unmerged, through the same judge
     let depth = if quick { 4 } else { 5 };
-    let seq_model = BuilderModel { proto: Proto::V4L, t0_ns: clks[0], nkeys: 9 };
+    let seq_model = BuilderModel { proto: Proto::V4L, t0_ns: clks[0], nkeys: 10 };
     let alphabet = seq_model.alphabet();
     let firsts: Vec<usize> = (0..alphabet.len()).collect();
     let accs = par_units(&firsts, |first| {
@@ -160,7 +161,7 @@ pub fn run(prop: &'static str, tier: &str) -> i32 {
         "action_alphabet_size": alphabet.len(),
         "traces_validated_note": "every transition (and every sequence) is a replay on the real PasetoBuilder; traces_validated_against_impl counts those replays",
         "distinct_rule": "distinct call sequences (engine A part); states/transitions are the model's",
-        "caps_hit": if quick { json!(["quick: the 9-key model on v4.local is explored to depth 5 (not closure); the 5-key model reaches closure on 6 protocols, the 3-key model on v1.public and v3.public"]) } else { json!([]) },
+        "caps_hit": if quick { json!(["quick: the 10-key model on v4.local is explored to depth 5 (not closure); the 5-key model reaches closure on 6 protocols, the 3-key model on v1.public and v3.public"]) } else { json!([]) },
     });
     run.finish(&all, exhaustive, extra, &["states are merged on the model state; soundness of that merge is cross-checked by computing the verdict on every transition and by the unmerged engine-A enumeration", "clock frozen through H2, RNG scripted through H1 (both thread-local, re-installed on every replay)"])
 }
